@@ -118,7 +118,8 @@ static bool apply(std::vector<S>& L, const Tr& t, int step, int& stateId) {
 }
 // transitions the backend is not asked to honour: a bare FileReader does not bounds-check seeks, and the
 // property quantifies over in-bounds operation sequences for it
-static bool skipped(const Tr& t) { return BACKEND == "file" && t.s == 1 && (!t.ok || t.cls != "small"); }
+// (a refused slice is different: "creating one that is not contained in its parent fails leaving the parent untouched" holds for every parent)
+static bool skipped(const Tr& t) { return BACKEND == "file" && t.s == 1 && (!t.ok || t.cls != "small") && t.op != "SliceAt" && t.op != "SliceHere"; }
 
 int main(int argc, char** argv) {
 	Proto::init(argc, argv); Proto::g_describe = describe_for_crash;
